@@ -12,6 +12,7 @@ import collections, copy, json, os, random, sys, time
 from concurrent.futures import ThreadPoolExecutor
 from . import common as C
 
+PROPERTIES = ["C04", "C12"]
 OWN = {"C04": 2, "C12": 3}   # index of the property's verdict in the VERDICT tuple
 
 
